@@ -3,6 +3,7 @@ with loop cutting at sidecar invariants, callee contracts at call sites and inli
 helpers from their current source.  Produces named proof obligations (pyvc.core.Obligation).
 """
 import ast
+import re
 import os
 import z3
 
@@ -187,7 +188,8 @@ class Interp(ExtMixin):
             goal = z3.BoolVal(goal)
         ob = Obligation(name, st.pc, goal, kind, line, st.abstraction, info)
         ob.base = base
-        ob.properties = list(self.contract.clause_props.get(clause, self.contract.properties)) if clause else list(self.contract.properties)
+        cp = self.contract.clause_props
+        ob.properties = list(cp.get(clause, cp.get(clause.split("<")[0], self.contract.properties))) if clause else list(self.contract.properties)
         self.obligations.append(ob)
         return ob
 
@@ -197,7 +199,15 @@ class Interp(ExtMixin):
             return
         if isinstance(cond, bool) and cond:
             return
-        self.oblige(st, "safe", exc, cond, getattr(node, "lineno", None))
+        # the clause names the expression that may raise (not only the exception class): after a restructuring of the function an
+        # implicit obligation of a *different* expression is a new obligation, not "the one that used to be discharged"
+        tag = ""
+        if isinstance(node, ast.AST):
+            try:
+                tag = re.sub(r"[^A-Za-z0-9_.\[\]()+*-]", "", ast.unparse(node))[:48]
+            except Exception:
+                tag = ""
+        self.oblige(st, "safe", f"{exc}<{tag}>" if tag else exc, cond, getattr(node, "lineno", None))
         st.assume(cond)
 
     # ------------------------------------------------------------------ feasibility
@@ -677,6 +687,11 @@ class Interp(ExtMixin):
                     return
             if attr == "__class__" and klass is None:
                 yield st, ClassVal(o.cls, getattr(self, "class_home", {}).get(o.cls))
+                return
+            if attr == "__dict__" and isinstance(klass, SymObj):
+                from .interp_ext import InstanceDict
+
+                yield st, InstanceDict(o)
                 return
             if (self.reg.lookup_method(o.cls, attr) is None and self.find_method(o.cls, attr) is None
                     and attr not in getattr(o, "absent", ()) and attr not in getattr(klass, "absent", ())):
